@@ -146,7 +146,10 @@ Definition is_comparable (t : ty) : bool :=
 Definition instantiable (tp : tparam) : bool :=
   negb (has_tparam (tp_constraint tp))
   && match explicit_constraint (tp_under_embeds tp) with
-     | Some (TBasic _ _ false) => match tp_under_embeds tp with [_] => true | _ => false end
+     | Some (TBasic _ _ false) =>
+       (* the chosen basic type satisfies the element it was taken from; every OTHER embedded element
+          must be comparable (which every basic type is) *)
+       Nat.eqb (List.length (filter (fun e => negb (is_comparable e)) (tp_under_embeds tp))) 1
      | Some _ => false
      | None =>
        if tp_plain_comparable tp
